@@ -55,7 +55,15 @@ type result struct {
 	done       bool
 }
 
+// splitBind: when set, the second client binds the same fixed port on a specific local address
+// (192.168.1.2) while the first uses the wildcard address: still one shared port.
+var splitBindIP = "192.168.1.2"
+
 func mkClient(bind uint16, calls []call, which int) uhppote.IUHPPOTE {
+	return mkClientOn(bind, "0.0.0.0", calls, which)
+}
+
+func mkClientOn(bind uint16, ip string, calls []call, which int) uhppote.IUHPPOTE {
 	devices := []uhppote.Device{}
 	seen := map[int]bool{}
 	for _, c := range calls {
@@ -67,7 +75,7 @@ func mkClient(bind uint16, calls []call, which int) uhppote.IUHPPOTE {
 	}
 	b := types.BindAddr{}
 	if bind != 0 {
-		b = types.BindAddrFrom(netip.MustParseAddr("0.0.0.0"), bind)
+		b = types.BindAddrFrom(netip.MustParseAddr(ip), bind)
 	}
 	return uhppote.NewUHPPOTE(b, types.BroadcastAddrFrom(netip.MustParseAddr("192.168.1.255"), 60000), types.ListenAddr{}, T, devices, false)
 }
@@ -96,6 +104,10 @@ func raceKey(r string) string {
 }
 
 func callScenario(name string, bind uint16, calls []call, bound int, discovery bool) e1.Scenario {
+	return callScenarioX(name, bind, calls, bound, discovery, false)
+}
+
+func callScenarioX(name string, bind uint16, calls []call, bound int, discovery bool, splitBind bool) e1.Scenario {
 	var res []*result
 	var devs []map[string]any
 	var devErr error
@@ -130,7 +142,11 @@ func callScenario(name string, bind uint16, calls []call, bound int, discovery b
 		vs.Net().Env = f
 		clients := []uhppote.IUHPPOTE{}
 		for k := 0; k < nclients; k++ {
-			clients = append(clients, mkClient(bind, calls, k))
+			if splitBind && k == 1 {
+				clients = append(clients, mkClientOn(bind, splitBindIP, calls, k))
+			} else {
+				clients = append(clients, mkClient(bind, calls, k))
+			}
 		}
 		for i := range calls {
 			i := i
@@ -350,6 +366,10 @@ func main() {
 										}
 										name := fmt.Sprintf("2calls/bind=%d/clients=%d/same=%v/%s+%s/%s:%v+%s:%v@%v", bind, nclients, same, pr[0], pr[1], p0, d0, p1, d1, off)
 										scenarios = append(scenarios, callScenario(name, bind, calls, bound, false))
+										if bind != 0 && nclients == 2 && pi == 0 && off == 0 {
+											// same fixed port, wildcard vs specific local address
+											scenarios = append(scenarios, callScenarioX(name+"/split-bind-address", bind, calls, bound, false, true))
+										}
 									}
 								}
 							}
@@ -389,7 +409,7 @@ func main() {
 	if r.Worker == "" && r.Replay == "" {
 		racePass(r)
 	}
-	r.Rule("2 (thorough also 3) harness threads x {bind port 0, fixed} x {one shared client, two clients} x {same, different controller} x paths {udp,tcp,broadcast}^2 x reply delays {0,0.4T,0.8T}^2 x start offset {0,0.3T} x 3 operation pairs; discovery alongside a directed call; Listen with two events and the stop signal at 5 offsets; for each scenario ALL interleavings with <= 2 preemptions. distinct = distinct per-call outcome labels observed")
+	r.Rule("2 (thorough also 3) harness threads x {bind port 0, fixed} x {one shared client, two clients (also: same fixed port on the wildcard and on a specific local address)} x {same, different controller} x paths {udp,tcp,broadcast}^2 x reply delays {0,0.4T,0.8T}^2 x start offset {0,0.3T} x 3 operation pairs; discovery alongside a directed call; Listen with two events and the stop signal at 5 offsets; for each scenario ALL interleavings with <= 2 preemptions. distinct = distinct per-call outcome labels observed")
 	r.Assume("sequentially consistent memory; scheduling points at mutex, channel, socket and sleep operations; unsynchronised accesses to locals shared with goroutine closures are caught by the vector-clock detector, everything else only by the free-running -race pass")
 	r.Assume("the simulated network orders consecutive operations on one socket (fd mutex atomics), as the real net package does")
 	r.Finish()
